@@ -1,6 +1,7 @@
 #!/bin/bash
 # usage: mut_try.sh <patch-file> <ID> [ID...]   -- applies patch to the scratch worktree /tmp/wt_self, runs the checks against it
 p=$1; shift
+[ -d /tmp/wt_self ] || git -C /repo worktree add -q --detach /tmp/wt_self HEAD
 git -C /tmp/wt_self checkout -q -- . && git -C /tmp/wt_self checkout -q --detach $(git -C /repo rev-parse HEAD) && git -C /tmp/wt_self apply "$p" || { echo "patch failed"; exit 2; }
 for id in "$@"; do
   PYVSC_SRC=/tmp/wt_self/src VERIF_MAX_VIOL=3 /verif/check $id --tier quick > /tmp/mut_try_$id.log 2>&1
